@@ -332,7 +332,19 @@ class Model:
         if self._inlined_view is None:
             self._inlined_view = Model(sources=self.sources, root=self.root,
                                        inline=True)
+            self._inlined_view._plain = self
         return self._inlined_view
+
+    _plain = None
+
+    def plain_view(self):
+        """The sources as written (helpers not inlined)."""
+        if not self.inline:
+            return self
+        if self._plain is None:
+            self._plain = Model(sources=self.sources, root=self.root)
+            self._plain._inlined_view = self
+        return self._plain
 
     def closure(self, fi, depth=3):
         """fi plus the helpers it calls, transitively: methods of its own
